@@ -22,7 +22,8 @@ type Obligation struct {
 	Goal    string
 	Func    string
 	Ground  bool
-	Group   int // obligations of the same group share their assumptions (same path end)
+	Props   []string // when non-empty: the obligation counts only for these properties
+	Group   int      // obligations of the same group share their assumptions (same path end)
 	// filled by the solver driver
 	Status string
 	Solver string
@@ -62,6 +63,9 @@ type VC struct {
 	curFrame       *Frame
 	heapSorts      map[string]string
 	groupCtr       int
+	funcSpecs      map[string]*FuncContract
+	specChecks     []specCheck
+	curProps       []string
 	folds          map[string]*foldInst
 	foldOrder      []string
 	siteOrd        map[ssa.Instruction]int
@@ -223,6 +227,19 @@ func (vc *VC) newRef(st *State, what string) Term {
 	}
 	st.assume(app(">", r.S, st.allocTop.S))
 	st.allocTop = r
+	// ghost sets over references only ever contain allocated objects
+	for _, g := range sortedKeys(vc.prog.contracts.Ghosts) {
+		gd := vc.prog.contracts.Ghosts[g]
+		if strings.HasPrefix(gd.Type, "set[ref]") {
+			var cur string
+			if t, ok := st.ghost[g]; ok {
+				cur = t.S
+			} else {
+				cur = vc.ghostInitName(st, g, "(Array Int Bool)")
+			}
+			st.assume(not(app("select", cur, r.S)))
+		}
+	}
 	return r
 }
 
@@ -502,8 +519,10 @@ func (ex *Exec) materialize(st *State, p *Ptr) Term {
 			return c.boxRef
 		}
 	}
-	vc.note("pointer into an aggregate escapes at %s: modelled as an opaque reference", ex.where())
-	return vc.fresh("opaqueptr", SRef)
+	vc.note("pointer into an aggregate escapes at %s: modelled as an opaque non-nil reference", ex.where())
+	op := vc.fresh("opaqueptr", SRef)
+	st.assume(not(app("=", op.S, "0")))
+	return op
 }
 
 // Exec ------------------------------------------------------------------------
@@ -1008,7 +1027,14 @@ func (ex *Exec) instr(fr *Frame, ins ssa.Instruction, pred *ssa.BasicBlock, st *
 		case *types.Slice:
 			seq := ex.toTerm(st, base, x.X.Type())
 			ex.boundsCheck(fr, st, idx, Term{app("sq_len_"+seq.Sort, seq.S), SInt})
-			fr.vals[x] = Val{K: VPtr, P: &Ptr{Kind: PSeq, Seq: seq, SeqProv: base.Prov, Path: []Step{{Idx: idx, SeqSort: seq.Sort}}, Typ: bt.Elem()}}
+			if base.Prov != nil && base.Prov.Kind != PSeq {
+				// a pointer into the slice held by a location: reads and writes go through that
+				// location, so several element pointers taken from one load stay coherent
+				vc.note("in-place slice element access through %s (slices are values: aliasing of the backing array is not modelled)", ex.where())
+				fr.vals[x] = Val{K: VPtr, P: base.Prov.extend(Step{Idx: idx, SeqSort: seq.Sort}, bt.Elem())}
+			} else {
+				fr.vals[x] = Val{K: VPtr, P: &Ptr{Kind: PSeq, Seq: seq, SeqProv: base.Prov, Path: []Step{{Idx: idx, SeqSort: seq.Sort}}, Typ: bt.Elem()}}
+			}
 		default:
 			vc.fatalf("IndexAddr on %s", x.X.Type())
 		}
@@ -1550,4 +1576,10 @@ func (vc *VC) sel(structSort, field string, base string) string {
 		}
 	}
 	return app(fieldSel(structSort, field), base)
+}
+
+func (vc *VC) ghostInitName(st *State, g, sort string) string {
+	init := "ghost_" + g + "_init"
+	vc.declare(init, sort)
+	return init
 }
